@@ -287,6 +287,16 @@ func genDoc(r *RNG, o docOpts) *DocSpec {
 	if d.Kind == "resource" || d.Kind == "identifier" {
 		d.Frags = append(d.Frags, r.Pick([]string{"some-id", "some-id", "a b", "50%", "é/x", "a%20b", "q?x=1#f"}))
 	}
+	// relationship URLs (/type/id/relationships/rel and /type/id/rel): what a relationship endpoint answers with
+	if t0r := s.Types[0].Rels; len(t0r) > 0 && ((d.Kind == "identifier" || d.Kind == "identifiers" || d.Kind == "null") && r.Bool() || r.Chance(1, 10)) {
+		rel := t0r[r.Intn(len(t0r))].Name
+		rid := r.Pick([]string{"some-id", "u1", "a b", "50%"})
+		if r.Chance(2, 3) {
+			d.Frags = []string{s.Types[0].Name, rid, "relationships", rel}
+		} else {
+			d.Frags = []string{s.Types[0].Name, rid, rel}
+		}
+	}
 	if r.Chance(1, 8) {
 		d.Links = map[string]string{"next": "/n?page=2", "about": genString(r)}
 	}
@@ -454,6 +464,23 @@ func (d *DocSpec) build() *docBuilt {
 		IsCol:     len(d.Frags) == 1,
 		ResType:   d.Frags[0],
 		Params:    &jsonapi.Params{Fields: copyStrMap(d.Fields), SortingRules: []string{}, Page: map[string]any{}},
+	}
+	if len(d.Frags) >= 2 {
+		b.URL.ResID = d.Frags[1]
+	}
+	if len(d.Frags) >= 3 {
+		if t := d.Schema.Type(d.Frags[0]); t != nil {
+			if rl := t.Rel(d.Frags[len(d.Frags)-1]); rl != nil {
+				b.URL.Rel = jsonapi.Rel{FromType: t.Name, FromName: rl.Name, ToOne: rl.ToOne, ToType: rl.ToType, ToName: rl.ToName, FromOne: rl.FromOne}
+				b.URL.IsCol = !rl.ToOne
+				b.URL.ResType = rl.ToType
+				b.URL.BelongsToFilter = jsonapi.BelongsToFilter{Type: d.Frags[0], ID: d.Frags[1], Name: rl.Name, ToName: rl.ToName}
+				b.URL.RelKind = "related"
+				if len(d.Frags) == 4 {
+					b.URL.RelKind = "self"
+				}
+			}
+		}
 	}
 	if d.SpareCap {
 		for k, v := range b.URL.Params.Fields {
